@@ -251,7 +251,7 @@ var c10Tokens = []string{";", "\n", "@", ":", "$", "+", "-", "*", "/", "%", ">",
 	// identifiers the parser treats as keywords in context
 	"if", "else", "GET", "let", "return"}
 
-var c10Bytes = []byte{0x00, 0x09, 0x0a, 0x0d, 0x20, 0x22, 0x27, 0x5c, 0x23, 0x2f, 0x7b, 0x7d, 0x61, 0x31, 0xc3, 0xa0, 0xef, 0xbb, 0xbf, 0xff}
+var c10Bytes = []byte{0x00, 0x09, 0x0a, 0x0d, 0x20, 0x22, 0x27, 0x5c, 0x23, 0x2f, 0x7b, 0x7d, 0x61, 0x31, 0x78, 0x75, 0xc3, 0xa0, 0xef, 0xbb, 0xbf, 0xff}
 
 type c10Ctx struct{ Name, Pre, Post string }
 
@@ -265,6 +265,8 @@ var c10ByteCtxs = []c10Ctx{
 	{"top-level", "", ""},
 	{"route-body", "@ GET /a {\n", "\n}\n"},
 	{"string-literal", "@ GET /a {\n$ x = \"", "\"\n> x\n}\n"},
+	// the input ends inside the literal (a file cut in the middle of a token, an escape without its digits)
+	{"open-string-at-end-of-input", "@ GET /a {\n$ x = \"", ""},
 }
 
 // ---------------------------------------------------------------- nesting families
